@@ -203,6 +203,31 @@ func fixedFamilies() []family {
 		{Name: "union_fragment_nest", Kind: "union_nest", Params: rangeInts(4, 60, 2), Gen: func(n int) string {
 			return "{ u " + strings.Repeat("{ ... on U { u ", n) + "{ __typename }" + strings.Repeat(" } }", n) + " }"
 		}},
+		// fragments whose type condition is the union itself: they apply to every
+		// member, and validation / execution / planning recurse union -> union
+		{Name: "union_self_named_fan2", Kind: "union_self_bomb", Params: rangeInts(4, 60, 2), Gen: func(n int) string {
+			return fragChain(n, "{ u { ...F0 } }", func(i int) string { return "U { " + spread(i+1, 2) + " }" }, "U { __typename ... on A { x } }")
+		}},
+		{Name: "union_self_named_fan3", Kind: "union_self_bomb", Params: rangeInts(4, 60, 2), Gen: func(n int) string {
+			return fragChain(n, "{ u { ...F0 } }", func(i int) string { return "U { " + spread(i+1, 3) + " }" }, "U { __typename ... on B { x } }")
+		}},
+		{Name: "union_self_inline_fan2", Kind: "union_self_bomb", Params: rangeInts(4, 60, 2), Gen: func(n int) string {
+			return fragChain(n, "{ u { ... on U { ...F0 } } }", func(i int) string {
+				return fmt.Sprintf("U { ... on U { ...F%d } ... on U { ... on U { ...F%d } } }", i+1, i+1)
+			}, "U { __typename ... on A { x } }")
+		}},
+		{Name: "union_self_member_mix_fan2", Kind: "union_self_bomb", Params: rangeInts(4, 60, 2), Gen: func(n int) string {
+			return fragChain(n, "{ u { ...F0 ... on A { x } } }", func(i int) string {
+				return fmt.Sprintf("U { ...F%d ... on A { x } ... on U { ...F%d ... on B { x } } }", i+1, i+1)
+			}, "U { __typename ... on A { x } ... on B { x } }")
+		}},
+		{Name: "union_self_below_member_fan2", Kind: "union_self_bomb", Params: rangeInts(4, 60, 2), Gen: func(n int) string {
+			// the union is reached again through a member's field: u { ... on A { u { ...F } } }
+			return fragChain(n, "{ u { ... on A { u { ...F0 } } } }", func(i int) string { return "U { " + spread(i+1, 2) + " }" }, "U { __typename }")
+		}},
+		{Name: "union_self_inline_nest", Kind: "linear", Params: rangeInts(20, 200, 20), Gen: func(n int) string {
+			return "{ u { " + strings.Repeat("... on U { ", n) + "__typename ... on A { x }" + strings.Repeat(" }", n) + " } }"
+		}},
 		{Name: "union_member_nest", Kind: "linear", Params: rangeInts(20, 160, 20), Gen: func(n int) string {
 			return "{ u " + strings.Repeat("{ ... on A { u ", n) + "{ __typename }" + strings.Repeat(" } }", n) + " }"
 		}},
@@ -396,10 +421,6 @@ func (e *env) climb(f family, stage string) ladderResult {
 			res.Verdict = "violated"
 			res.Why = fmt.Sprintf("CPU time multiplied >= %.0fx per step over the last %d steps and reached %.0f ms for a %d-byte input", growthFactor, growthSteps, st.CPUms, st.Bytes)
 			return res
-		case errText != "" && stage != "GatewayPlan":
-			res.Verdict = "inconclusive"
-			res.Why = "stage failed: " + errText
-			return res
 		case pre > preGuard:
 			res.Verdict = "inconclusive"
 			res.Why = fmt.Sprintf("not reachable beyond n=%d: the prerequisite stages took %.0f ms", n, st.Prems)
@@ -464,7 +485,13 @@ func classify(r ladderResult) string {
 		return "gateway-flatten-fragment-respread-exponential"
 	case r.Kind == "fragment_bomb_tree" && r.Stage == "GatewayPlan":
 		return "gateway-flatten-tree-expansion-exponential"
-	case r.Kind == "union_nest" && r.Stage == "GatewayPlan":
+	case r.Kind == "union_self_bomb" && r.Stage == "Execute":
+		// resolveUnionBatch collects the contents of a fragment on the union
+		// every time it is reached
+		return "execute-union-self-fragment-exponential"
+	case (r.Kind == "union_nest" || r.Kind == "union_self_bomb") && r.Stage == "GatewayPlan":
+		// only the gateway stage of the union families is the known flattener
+		// expansion; their Parse / PrepareQuery / Execute stages are unclassified
 		return "gateway-flatten-union-exponential"
 	}
 	return ""
